@@ -8,9 +8,9 @@ D=/tmp/me-$TAG
 rm -rf "$D"; mkdir -p "$D"
 git -C /repo worktree add -q --detach "$D/repo" HEAD || exit 2
 if ! git -C "$D/repo" apply "$PATCH"; then echo "$TAG patch does not apply"; git -C /repo worktree remove --force "$D/repo"; rm -rf "$D"; exit 2; fi
-rsync -a --exclude target --exclude work --exclude .git /verif/ "$D/verif/"
+rsync -a --exclude target --exclude work --exclude .git --exclude seeded --exclude benign "${VERIF_SRC:-/verif}/" "$D/verif/"
 sed -i "s#/repo/packages#$D/repo/packages#" "$D/verif/harness/Cargo.toml"
-cp -r /verif/harness/target "$D/verif/harness/target" 2>/dev/null
+cp -r "${VERIF_SRC:-/verif}/harness/target" "$D/verif/harness/target" 2>/dev/null
 export VERIF_ROOT="$D/verif" BEFF_REPO="$D/repo" CARGO_NET_OFFLINE=true VERIF_SEED="$SEED"
 mkdir -p "$D/verif/work"
 ( cd "$D/verif/harness" && cargo build --release --features wasmhook -j 8 >"$D/build.log" 2>&1 ) || {
